@@ -323,6 +323,16 @@ def r1(R, m):
         r1_npk(R, m, fn, cfg, stmt, arg)
 
 
+def _is_count_call(v):
+    """self.score(W, tol), or the kernel it wraps written out: cImageD11.score(W, self.gv, tol) (same g-vectors, same tolerance slot)"""
+    if not (isinstance(v, ast.Call) and v.args):
+        return False
+    f_ = nows(src(v.func))
+    if f_ == "self.score":
+        return True
+    return f_ == "cImageD11.score" and len(v.args) == 3 and nows(src(v.args[1])) == "self.gv"
+
+
 def r1_npk(R, m, fn, cfg, app_stmt, ubiname):
     defs_npk = assigns_to(fn, "npk")
     defs_ubi = assigns_to(fn, ubiname)
@@ -355,7 +365,7 @@ def r1_npk(R, m, fn, cfg, app_stmt, ubiname):
         name = nows(src(d.targets[0]))
         if before:
             if name == "npk":
-                ok = isinstance(d.value, ast.Call) and nows(src(d.value.func)) == "self.score" and d.value.args \
+                ok = _is_count_call(d.value) \
                     and nows(src(d.value.args[0])) == "self.unitcell.UBI"
                 R.check(ok, "C08.R1", REL, d.lineno, "indexer.scorethem", src(d)[:70],
                         "the count tested against minpks is not the score of the trial matrix self.unitcell.UBI")
@@ -398,7 +408,7 @@ def r1_npk(R, m, fn, cfg, app_stmt, ubiname):
             if oku and len(ldefs) == 1 and isinstance(ldefs[0].value, ast.ListComp) and len(ldefs[0].value.generators) == 1:
                 lc = ldefs[0].value
                 g = lc.generators[0]
-                okl = isinstance(lc.elt, ast.Call) and nows(src(lc.elt.func)) == "self.score" and lc.elt.args \
+                okl = _is_count_call(lc.elt) \
                     and nows(src(lc.elt.args[0])) == nows(src(g.target)) and nows(src(g.iter)) == nows(src(base.value)) and not g.ifs
             R.check(oku and okl, "C08.R1", REL, d.lineno, "indexer.scorethem",
                     "%s := %s with npk := %s, %s := %s" % (ubiname, src(uv), src(nv), lst, [src(x.value)[:60] for x in ldefs]),
@@ -408,7 +418,7 @@ def r1_npk(R, m, fn, cfg, app_stmt, ubiname):
             mdefs = assigns_to(fn, nv.id)
 
             def is_score_of(v_, w_):
-                return isinstance(v_, ast.Call) and nows(src(v_.func)) == "self.score" and bool(v_.args) and nows(src(v_.args[0])) == w_
+                return _is_count_call(v_) and nows(src(v_.args[0])) == w_
 
             def block_of(st_):
                 par_ = getattr(st_, "_parent", None)
@@ -535,7 +545,7 @@ def r6(R, m):
                 continue
             nref += 1
             rescored = [a for a in ast.walk(fn) if isinstance(a, ast.Assign) and isinstance(a.value, ast.Call)
-                        and nows(src(a.value.func)) == "self.score" and a.value.args and nows(src(a.value.args[0])) == w and a.lineno > c.lineno]
+                        and _is_count_call(a.value) and nows(src(a.value.args[0])) == w and a.lineno > c.lineno]
             R.check(bool(rescored), "C08.R6", REL, c.lineno, "indexer.scorethem", "%s refined then scored again" % w,
                     "a refined matrix is used without its peak count being taken again")
     R.note("C08.R6: kernels that overwrite their first argument per the .pyf: %s" % sorted(muts_k))
